@@ -65,7 +65,11 @@ func (m *model) compute(name string) ([]byte, bool) {
 		h.Write(m.ch[i-1].value)
 	}
 	for _, b := range m.ch[i].bindings {
-		h.Write(b)
+		// a value the hash refuses (MiMC: not a sequence of canonical field elements) cannot be hashed: the
+		// challenge is not computable and the transcript stays as it is
+		if _, err := h.Write(b); err != nil {
+			return nil, false
+		}
 	}
 	m.ch[i].value = h.Sum(nil)
 	m.ch[i].computed = true
@@ -78,6 +82,7 @@ const (
 	evCompute
 	evMutBound
 	evMutReturned
+	evBindBad // Bind of a value the hash refuses (only for hashes that refuse some inputs)
 )
 
 type event struct {
@@ -93,6 +98,8 @@ func (e event) String(names []string) string {
 	switch e.kind {
 	case evBind:
 		return "Bind(" + n + ")"
+	case evBindBad:
+		return "BindRefusedValue(" + n + ")"
 	case evCompute:
 		return "Compute(" + n + ")"
 	case evMutBound:
@@ -106,6 +113,7 @@ type hcfg struct {
 	newH  func() hash.Hash
 	names []string
 	val   func(ctr int) []byte // unique value per bind
+	bad   func(ctr int) []byte // a value the hash refuses (nil when the hash accepts everything)
 }
 
 func fmtHist(names []string, h []event) string {
@@ -143,9 +151,12 @@ func runHistory(c *mon.Ctx, cfg hcfg, names []string, hist []event) {
 	}
 	step := func(i int, e event) bool {
 		switch e.kind {
-		case evBind:
+		case evBind, evBindBad:
 			ctr++
 			v := cfg.val(ctr)
+			if e.kind == evBindBad {
+				v = cfg.bad(ctr)
+			}
 			mv := append([]byte(nil), v...)
 			err := t.Bind(nameOf(e.name), v)
 			ok := m.bind(nameOf(e.name), mv)
@@ -226,7 +237,7 @@ func classify(hist []event, nn int) string {
 	var b, cp, mb, mr, unk int
 	for _, e := range hist {
 		switch e.kind {
-		case evBind:
+		case evBind, evBindBad:
 			b++
 		case evCompute:
 			cp++
@@ -264,9 +275,15 @@ func main() {
 		}
 		return b[:]
 	}
+	mimcBad := func(ctr int) []byte {
+		if ctr%2 == 0 {
+			return bytes.Repeat([]byte{0xff}, 32) // >= r
+		}
+		return append(mimcVal(ctr), 0x01) // not a whole number of blocks
+	}
 	cfgs := []hcfg{
-		{"sha256", sha256.New, []string{"alpha", "beta", "gamma", "delta"}, shaVal},
-		{"mimc", func() hash.Hash { return mimc.NewMiMC() }, []string{"a", "bb", "gamma", "d"}, mimcVal},
+		{"sha256", sha256.New, []string{"alpha", "beta", "gamma", "delta"}, shaVal, nil},
+		{"mimc", func() hash.Hash { return mimc.NewMiMC() }, []string{"a", "bb", "gamma", "d"}, mimcVal, mimcBad},
 	}
 	maxLen := map[string]int{"sha256": c.Pick(6, 7), "mimc": c.Pick(4, 5)}
 	exhaustive := int64(0)
@@ -282,6 +299,11 @@ func main() {
 				alpha = append(alpha, event{evCompute, i})
 			}
 			alpha = append(alpha, event{evMutBound, 0}, event{evMutReturned, 0})
+			if cfg.bad != nil {
+				for i := 0; i < nn; i++ {
+					alpha = append(alpha, event{evBindBad, i})
+				}
+			}
 			L := maxLen[cfg.label]
 			if nn == 3 && !c.Thorough() && cfg.label == "sha256" {
 				L = 5 // 10^6 histories of length 6 would be 10^6*~14 steps; keep quick bounded
@@ -336,6 +358,8 @@ func main() {
 			for i := range hist {
 				r := rng.Intn(100)
 				switch {
+				case r < 6 && cfg.bad != nil:
+					hist[i] = event{evBindBad, rng.Intn(nn)}
 				case r < 40:
 					hist[i] = event{evBind, rng.Intn(nn + 1)}
 				case r < 80:
